@@ -36,11 +36,14 @@ def one(args):
             res["status"] = "stale"
             return res
         if run_tests:
-            tdir = "/tmp/thv-vfy-target-%d" % worker
+            tdir = os.path.join(d, "target")
             env = dict(os.environ, CARGO_TARGET_DIR=tdir, CARGO_NET_OFFLINE="true")
-            r = subprocess.run(["cargo", "test", "--offline", "--no-fail-fast", "-q"], cwd=d, env=env, stdout=subprocess.PIPE, stderr=subprocess.STDOUT, text=True, timeout=900)
-            fails = re.findall(r"^test (\S+) \.\.\. FAILED", r.stdout, re.M)
-            res["tests"] = "pass" if r.returncode == 0 else ("compile-error" if "error[" in r.stdout or "error:" in r.stdout and not fails else "FAIL: " + ",".join(fails[:4]))
+            try:
+                r = subprocess.run(["cargo", "test", "--offline", "--no-fail-fast"], cwd=d, env=env, stdout=subprocess.PIPE, stderr=subprocess.STDOUT, text=True, timeout=420)
+                fails = re.findall(r"^test (\S+) \.\.\. FAILED", r.stdout, re.M)
+                res["tests"] = "pass" if r.returncode == 0 else ("compile-error" if re.search(r"^error(\[E\d+\])?: (?!test failed)", r.stdout, re.M) and not fails else "killed-by-tests: " + ",".join(fails[:4]))
+            except subprocess.TimeoutExpired:
+                res["tests"] = "killed-by-tests: hang (>420 s)"
         props = sorted({meta.get("property")} | {e.split(".")[0] for e in (meta.get("expect") or []) if re.match(r"^C\d\d", e)})
         fired = {}
         for p in props:
@@ -57,7 +60,7 @@ def one(args):
         res["expected_rules_fired"] = [e for e in exp if any(k.startswith(e) for v in fired.values() for k in v["keys"])]
         return res
     except Exception as e:
-        res["status"] = "error: %s" % e
+        res["status"] = "error: %s" % str(e)[:200]
         return res
     finally:
         shutil.rmtree(d, ignore_errors=True)
